@@ -8,7 +8,7 @@ python3 - "$S" "$D" <<'PY'
 import json,sys
 s,d=sys.argv[1],sys.argv[2]
 m=json.load(open(s+'/meta.json'))
-m['confirmed_by_me']=open(s+'/confirm.log').read()
+m['confirmed_by_me']=open(s+"/confirm.log" if __import__("os").path.exists(s+"/confirm.log") else s+"/confirm.out").read()
 json.dump(m,open(d+'/meta.json','w'),indent=1)
 PY
 git -C /repo worktree remove --force /tmp/wt/$N && echo "removed worktree $N"
